@@ -416,6 +416,7 @@ func (m *asmModel) operandMask(n int) []bool {
 // Snapshots of the observable emitter state.
 
 type asmSnap struct {
+	Err    string // non-empty: an accessor of the emitter panicked
 	Bytes  []byte
 	Len    int
 	Cap    int
@@ -427,17 +428,37 @@ type asmSnap struct {
 var allLabelIdx = 12
 
 func snapEmitter(e *asm.Emitter) asmSnap {
-	s := asmSnap{Len: e.Len(), Cap: e.Cap(), PC: e.PC(), Flags: uint8(e.Flags()), Labels: map[string]int64{}}
-	s.Bytes = append([]byte{}, e.Bytes()...)
-	for i := 0; i < allLabelIdx; i++ {
-		n := labelName(int64(i))
-		if v, ok := e.GetLabel(n); ok {
-			s.Labels[n] = int64(v)
-		} else {
-			s.Labels[n] = -1
+	s := asmSnap{Labels: map[string]int64{}}
+	p, v := sim.RecoverLib(func() {
+		s.Len, s.Cap, s.PC, s.Flags = e.Len(), e.Cap(), e.PC(), uint8(e.Flags())
+		s.Bytes = append([]byte{}, e.Bytes()...)
+		for i := 0; i < allLabelIdx; i++ {
+			n := labelName(int64(i))
+			if v, ok := e.GetLabel(n); ok {
+				s.Labels[n] = int64(v)
+			} else {
+				s.Labels[n] = -1
+			}
+		}
+	})
+	if p {
+		s.Err = "accessor panicked: " + sim.PanicString(v)
+		s.Bytes = nil
+		for i := 0; i < allLabelIdx; i++ {
+			if _, ok := s.Labels[labelName(int64(i))]; !ok {
+				s.Labels[labelName(int64(i))] = -1
+			}
 		}
 	}
 	return s
+}
+
+// accessorViolation reports a panic of Len/Cap/PC/Flags/Bytes/GetLabel as a violation.
+func accessorViolation(s asmSnap, step int, op sim.Op) *sim.Violation {
+	if s.Err == "" {
+		return nil
+	}
+	return &sim.Violation{Oracle: "accessor_panic", Step: step, Msg: fmt.Sprintf("after %s: %s", op, s.Err)}
 }
 
 func (a asmSnap) diff(b asmSnap, withFlags bool) string {
